@@ -36,12 +36,14 @@ def gen_sel(tier, seed):
 
 def test_sel(inp):
     r = _test_sel(inp, False)
-    return r or _test_sel(inp, True)
+    return r or _test_sel(inp, True) or _test_sel(inp, False, chunked=True)
 
 
-def _test_sel(inp, labelled):
+def _test_sel(inp, labelled, chunked=False):
     spec = inp['spec']
     ds = datasets.build(spec)
+    if chunked:
+        ds = ds.chunk()          # dask-backed variables (a dataset opened with chunks=...): same values, same order
     if labelled:
         # element numbers of a parent domain as index coordinates on the grid dimensions (not 0..n-1)
         conv0 = ds.ems
@@ -60,6 +62,8 @@ def _test_sel(inp, labelled):
     rng = random.Random(inp['seed'] + size)
     geometry = set(map(str, ems.get_all_geometry_names()))
     lists = [[0], [size - 1, 0], [1 % size, 1 % size, 0], [rng.randrange(size) for _ in range(5)], list(range(size))[::-1]]
+    if size >= 3:
+        lists += [[size - 1, 0, 1], [1, size - 1, 0]]          # request orders whose sort permutation is not its own inverse
     for lin in lists:
         idxs = [native(spec['conv'], kind, numpy.unravel_index(l, shape)) for l in lin]
         res = must(lambda: ems.select_indexes(idxs, index_dimension='request'), f'select_indexes({idxs})')
